@@ -116,6 +116,38 @@ class Schema:
             return TypeRef(None, 0, expr, mod, ast.unparse(expr))
         return TypeRef(ci, 0, expr, mod)
 
+    def _map_by_evaluation(self, expr, mod):
+        from .terms import dict_pairs
+        ev = Evaluator(self.repo, inline_depth=3, inline_filter=lambda f: f.name != "cbstr")
+        try:
+            t = ev.term(expr, mod)
+        except AnalysisError:
+            return None
+        if isinstance(t, App) and t.op == "call:dict.fromkeys" and len(t.args) == 2:
+            from .terms import list_items
+            li = list_items(t.args[0])
+            return [(k, t.args[1]) for k in li] if li is not None else None
+        dp = dict_pairs(t)
+        if dp is None or isinstance(t, Const):
+            return None
+        return dp
+
+    def _type_of_term(self, t, node, mod) -> TypeRef:
+        if isinstance(t, Ref) and t.kind == "class":
+            return TypeRef(t.obj, 0, node, mod)
+        if isinstance(t, App) and t.op == "call" and isinstance(t.args[0], Ref) and t.args[0].kind == "func" and t.args[0].obj.name == "cbstr" \
+                and t.args[0].obj.module is self.common and len(t.args) == 2:
+            inner = self._type_of_term(t.args[1], node, mod)
+            return TypeRef(inner.cls, inner.wrap + 1, node, mod, inner.unresolved)
+        return TypeRef(None, 0, node, mod, repr(t)[:60])
+
+    def _key_of_term(self, t, node, mod):
+        if isinstance(t, Const) and isinstance(t.v, str):
+            return t.v
+        if isinstance(t, Ref) and t.kind == "class" and self.is_key_class(t.obj):
+            return self.key_ref(t.obj, node)
+        return self._type_of_term(t, node, mod)
+
     def parse_key(self, expr: ast.AST, mod: Mod):
         """Key of a metadata map: suit_key class -> KeyRef, string constant -> str, type -> TypeRef."""
         if isinstance(expr, ast.Constant) and isinstance(expr.value, str):
@@ -157,8 +189,15 @@ class Schema:
                     and isinstance(mp.args[0], (ast.Tuple, ast.List)) and not any(isinstance(x, ast.Starred) for x in mp.args[0].elts):
                 # dict.fromkeys((k1, k2, ...), T): every key maps to T, in the order written
                 mp = ast.Dict(keys=list(mp.args[0].elts), values=[mp.args[1]] * len(mp.args[0].elts))
-            if not isinstance(mp, ast.Dict):
-                raise AnalysisError(f"{owner.fq}: map of the metadata is written in a form the schema reader does not understand: {ast.unparse(mp)[:80]}")
+            if not isinstance(mp, ast.Dict) or any(k is None for k in mp.keys):
+                # a table built by an expression (dict.fromkeys(NAMES, T), a helper function returning the dict, ...): evaluated
+                # abstractly; the result must be a dict of key classes / names to types
+                pairs = self._map_by_evaluation(mp, mod)
+                if pairs is None:
+                    raise AnalysisError(f"{owner.fq}: map of the metadata is written in a form the schema reader does not understand: {ast.unparse(mp)[:80]}")
+                mi.map = []
+                for kt, vt in pairs:
+                    mi.map.append((self._key_of_term(kt, mp, mod), self._type_of_term(vt, mp, mod)))
             else:
                 mi.map = []
                 for k, v in zip(mp.keys, mp.values):
